@@ -44,6 +44,7 @@ type CheckCfg struct {
 	Extra       []string     `json:"extra_steps"`
 	Parts       []string     `json:"parts"`
 	ZeroStubs   []string     `json:"zero_stubs"` // functions replaced by stubs returning zero values (calls are logged)
+	BuildOnly   []GenCfg     `json:"build_only"` // C01: generate from each spec and compile the output (no harness): a compile error is the violation
 	JSONModel   bool         `json:"json_model"` // install the text-level model of encoding/json (jsonmodel.go)
 	MaxSteps    int          `json:"max_steps"`  // interpreter step bound per path (default 400000)
 	Gen         *GenCfg      `json:"gen"`        // the code under check is the OUTPUT of the generator built from the repository
@@ -56,6 +57,7 @@ type GenCfg struct {
 	Args       []string `json:"args"`        // e.g. ["generate","model"]
 	More       [][]string `json:"more"`      // further generator invocations into the same module (e.g. ["generate","client"])
 	HarnessDir string   `json:"harness_dir"` // relative to the verif root; holds <package>/*.go
+	Known      string   `json:"known"`       // build-only entries: id of the open known finding this spec is the witness of (the build is expected to fail)
 	LoadRepo   bool     `json:"load_repo"`   // generate, but check a package of the repository: harnesses read the generated files (vHostFile)
 }
 
@@ -303,6 +305,9 @@ func runOne(name string, cfg CheckCfg, tier, repo, only string, workers int, noN
 	id := cfg.Property
 	buildDir := filepath.Join(envOr("VERIF_BUILD", filepath.Join(verifRoot, ".build")), name)
 	os.MkdirAll(buildDir, 0o755)
+	if len(cfg.BuildOnly) > 0 {
+		return runBuildOnly(name, cfg, tier, repo, buildDir, seed, start)
+	}
 	srcRepo := repo
 	if cfg.Gen != nil {
 		g, err := prepareGen(cfg, repo, buildDir)
@@ -817,6 +822,95 @@ func writeReplay(id, check, rid, harness string, f FailRec, params map[string]in
 	return p
 }
 
+// runBuildOnly: the generator built from repo writes code for each listed spec and the result is
+// compiled with the Go tool chain. This part decides nothing by solving: it exists because C01 is
+// literally "the generated code builds", and because the symbolic checks of generated code end
+// without verdict when that code stops compiling.
+func runBuildOnly(name string, cfg CheckCfg, tier, repo, buildDir string, seed int, start time.Time) int {
+	id := cfg.Property
+	var evs []*harnessEvidence
+	violations := 0
+	for i, g := range cfg.BuildOnly {
+		t0 := time.Now()
+		sub := filepath.Join(buildDir, fmt.Sprintf("b%d", i))
+		os.MkdirAll(sub, 0o755)
+		one := cfg
+		gc := g
+		one.Gen = &gc
+		ev := &harnessEvidence{Name: "build:" + g.Spec, What: "generate " + strings.Join(g.Args, " ") + " (+" + fmt.Sprint(len(g.More)) + " more) and compile the output", Params: map[string]int{},
+			Outcomes: map[string]int{}, Queries: map[string]int{}, Exhaustive: true, Paths: 1, Decisions: 1, Obligations: 1}
+		gen, err := prepareGen(one, repo, sub)
+		msg := ""
+		if err != nil {
+			// a refused spec is acceptable for C01 only if the generator says so; here every spec is valid
+			msg = "generation failed: " + err.Error()
+		} else {
+			cmd := exec.Command("go", "build", "./...")
+			cmd.Dir = gen
+			cmd.Env = append(os.Environ(), goEnv...)
+			if out, berr := cmd.CombinedOutput(); berr != nil {
+				o := string(out)
+				if len(o) > 1500 {
+					o = o[:1500]
+				}
+				msg = "the generated code does not compile: " + o
+			}
+		}
+		ev.WallS = time.Since(t0).Seconds()
+		if g.Known != "" {
+			// the witness of an open known finding: it must still fail
+			open := false
+			what := ""
+			for _, k := range loadKnown() {
+				if k.ID == g.Known && k.Status == "open" {
+					open, what = true, k.What
+				}
+			}
+			if open && msg != "" {
+				fmt.Printf("KNOWN-FINDING: property=%s %s [%s]\n", id, what, g.Known)
+				ev.Outcomes["known"] = 1
+				ev.Discharged = 1
+				ev.Sample = map[string]interface{}{"spec": g.Spec, "outcome": "known finding " + g.Known + " reproduced"}
+				evs = append(evs, ev)
+				continue
+			}
+			if open && msg == "" {
+				fmt.Fprintf(os.Stderr, "stale known finding %s: its witness spec now generates and compiles\n", g.Known)
+			}
+		}
+		if msg == "" {
+			ev.Discharged = 1
+			ev.Outcomes["ok"] = 1
+			ev.Sample = map[string]interface{}{"spec": g.Spec, "outcome": "generated and compiled"}
+			fmt.Fprintf(os.Stderr, "[%s] build %s: ok (%.1fs)\n", id, g.Spec, ev.WallS)
+		} else {
+			violations++
+			ev.Outcomes["fails"] = 1
+			ev.Sample = map[string]interface{}{"spec": g.Spec, "outcome": msg}
+			dir := filepath.Join(verifRoot, "replays", id)
+			os.MkdirAll(dir, 0o755)
+			rp := filepath.Join(dir, fmt.Sprintf("build-%d.json", i))
+			b, _ := json.MarshalIndent(map[string]interface{}{"property": id, "check": name, "spec": g.Spec, "args": g.Args, "more": g.More, "message": msg}, "", " ")
+			os.WriteFile(rp, b, 0o644)
+			fmt.Printf("VIOLATION property=%s replay=%s\n", id, rp)
+			first := msg
+			if j := strings.Index(first, "\n"); j > 0 && j < 300 {
+				first = first[:j]
+			}
+			fmt.Printf("   build %s: %s\n", g.Spec, first)
+		}
+		evs = append(evs, ev)
+	}
+	status := "holds"
+	rc := 0
+	if violations > 0 {
+		status, rc = "violated", 1
+	}
+	writeEvidence(name, id, tier, seed, cfg, evs, nil, time.Since(start), status, violations, 0)
+	fmt.Fprintf(os.Stderr, "[%s] %s (%.1fs)\n", id, status, time.Since(start).Seconds())
+	return rc
+}
+
 func runReplayFile(path string) int {
 	b, err := os.ReadFile(path)
 	if err != nil {
@@ -837,6 +931,20 @@ func runReplayFile(path string) int {
 	}
 	if doc.Check == "" {
 		doc.Check = doc.Property
+	}
+	if doc.Harness == "" {
+		// a build violation: generate from the recorded spec and compile again
+		var bd struct {
+			Spec string     `json:"spec"`
+			Args []string   `json:"args"`
+			More [][]string `json:"more"`
+		}
+		if json.Unmarshal(b, &bd) == nil && bd.Spec != "" {
+			cfg := CheckCfg{Property: doc.Property, BuildOnly: []GenCfg{{Spec: bd.Spec, Args: bd.Args, More: bd.More}}}
+			dir := filepath.Join(envOr("VERIF_BUILD", filepath.Join(verifRoot, ".build")), doc.Check+"-replay")
+			os.MkdirAll(dir, 0o755)
+			return runBuildOnly(doc.Check+"-replay", cfg, "quick", envOr("VERIF_REPO", "/repo"), dir, 0, time.Now())
+		}
 	}
 	cfgB, err := os.ReadFile(filepath.Join(verifRoot, "checks", doc.Check+".json"))
 	if err != nil {
